@@ -1,7 +1,7 @@
 /-
   The order in which `UNPACKDAP4DATA.unpack_dap4_data` (handlers/dap.py) consumes the variables:
   `sorted(walk(dataset, BaseType), key=lambda v: order.get(<path>/<name>, len(order)))` with
-  `order` = position in `get_variables(DMRParser(dmr).node)`.
+  `order` = position in `get_variables(DMRParser(dmr).node)`, under the quoted name (fix 182bd6b).
 -/
 import PydapModel.Dmr
 namespace Pydap.Dmr
@@ -28,7 +28,7 @@ def orderIndex (keys : List Str) (k : Str) : Nat := keys.idxOf k
 /-- the variables in the order their data is cut from the buffer -/
 def decodeOrder (root : XNode) : Except Err (List VarRec) := do
   let ws ← datasetWalk root
-  let keys := (dictOfLog (getVariables root [])).map (·.1)
+  let keys := (dictOfLog (getVariables root [])).map fun kv => quoteName kv.1     -- `{_quote(name): i …}`
   pure (sortBy (fun r => orderIndex keys (walkKey r)) ws)
 
 end Pydap.Dmr
